@@ -36,7 +36,7 @@ PROFILES = {
     "charclass": dict(p_unicode=0.75, w_char=8, w_string=3, w_struct=3, w_unit=0, w_alias=1, w_enum=1, nrules=(3, 6), p_ccheck=0.2, p_lookahead=0.2, p_memo=0.2),
     # mostly @string rules of every body shape (single literals, case-insensitive keywords, closures, override fields, nested
     # @string rules), entered from skipping and non-skipping rules
-    "strings": dict(p_string_trailing_neg=0.3, p_trailing_neg=0.2, w_string=9, w_struct=4, w_unit=1, w_char=2, w_extern=4, w_alias=1, w_enum=1, p_fields_in_string=0.3, p_noskip=0.5, p_insens=0.3, p_ws_lit=0.1,
+    "strings": dict(p_keyword_rule=0.25, p_numberlike_string=0.25, p_string_trailing_neg=0.3, p_trailing_neg=0.2, w_string=9, w_struct=4, w_unit=1, w_char=2, w_extern=4, w_alias=1, w_enum=1, p_fields_in_string=0.3, p_noskip=0.5, p_insens=0.3, p_ws_lit=0.1,
                     p_position=0.35, p_single_lit_string=0.3, nrules=(3, 7)),
     "memo": dict(p_include=0.3, p_noskip=0.4, p_shared_prefix=0.35, p_memo=0.5, p_lookahead=0.2, nrules=(3, 7), p_check=0.3, p_ccheck=0.2, w_extern=4, w_char=2),
     "memofail": dict(p_shared_prefix=0.5, w_alias=3, p_memo=1.0, p_probe=0.7, p_lookahead=0.15, w_extern=3, nrules=(3, 6), p_check=0.35, p_ccheck=0.2, w_char=2),
@@ -44,8 +44,8 @@ PROFILES = {
                       w_enum=0, w_char=1, p_include=0.15, p_lookahead=0.03, p_noskip=0.1, dense_fields=True),
     "leftrec": dict(leftrec=1.0, p_memo=0.1, p_position=0.3, p_check=0.4, p_probe=0.5),
     "ws": dict(p_noskip=0.5, p_user_ws=0.45, p_include=0.25, w_string=3, p_position=0.3, p_ws_lit=0.15),
-    "position": dict(p_single_lit_string=0.3, p_insens=0.25, p_box=0.3, p_position=0.8, p_unicode=0.3, w_string=4, w_enum=3, p_memo=0.15, leftrec=0.15),
-    "errors": dict(p_lookahead=0.25, p_check=0.25, w_extern=4, w_char=2, p_ccheck=0.3, p_eoi_root=0.8),
+    "position": dict(p_keyword_rule=0.35, p_single_lit_string=0.3, p_insens=0.25, p_box=0.3, p_position=0.8, p_unicode=0.3, w_string=4, w_enum=3, p_memo=0.15, leftrec=0.15),
+    "errors": dict(p_numberlike_string=0.35, w_string=4, p_lookahead=0.25, p_check=0.25, w_extern=4, w_char=2, p_ccheck=0.3, p_eoi_root=0.8),
     "include": dict(p_string_include=0.3, p_fields_in_string=0.5, w_string=4, p_user_ws=0.25, p_lonely_include=0.35, p_nest_include=0.6, p_name_family=0.3, p_include=0.6, p_noskip=0.4, p_position=0.3, p_memo=0.15, p_check=0.15, w_struct=8,
                     w_unit=2, w_alias=0, w_enum=1),
     "userfn": dict(p_check=0.6, p_ccheck=0.6, w_extern=4, w_char=4, user_ctx=0.4, w_string=2, w_enum=2, w_alias=2, leftrec=0.3),
@@ -138,6 +138,15 @@ class Gen:
                             g = g2
                         except Invalid:
                             pass
+                if self.coin(self.p.get("p_keyword_rule", 0.05)):
+                    g2 = self.keyword_rule(g)
+                    if g2 is not None:
+                        try:
+                            check_wellformed(g2)
+                            check_types(g2)
+                            g = g2
+                        except Invalid:
+                            pass
                 if self.coin(self.p.get("p_string_include", 0.0)):
                     g2 = self.string_include(g)
                     if g2 is not None:
@@ -190,6 +199,25 @@ class Gen:
         alt.parts.insert(self.r.randint(0, len(alt.parts)), piece)
         g.rules.append(one)
         self.kinds["One"] = "struct"
+        return g
+
+    def keyword_rule(self, g):
+        """a keyword token:  @string [@position] [@no_skip_ws] Kw = i'select';  used as a field of some rule - its value (and range)
+        is the input's spelling of the keyword"""
+        import copy
+        g = copy.deepcopy(g)
+        hosts = [r for r in g.rules if r.kind == "rule" and not r.has("string") and self.kinds.get(r.name) == "struct"]
+        if not hosts or g.rule("Kw") is not None:
+            return None
+        host = self.r.choice(hosts)
+        word = self.r.choice(["select", "AS", "let", "End", "fn", "iF"])
+        dirs = ["string"] + (["position"] if self.coin(0.7) else []) + (["no_skip_ws"] if self.coin(0.6) else [])
+        self.r.shuffle(dirs)
+        g.rules.append(Rule("Kw", Cho([Seq([Lit(word, True)])]), dirs))
+        self.kinds["Kw"] = "string"
+        f = self.r.choice(self.fieldpool)
+        alt = self.r.choice(host.body.alts)
+        alt.parts.insert(self.r.randint(0, len(alt.parts)), Ref("Kw", f))
         return g
 
     def nullable_tail(self, g):
@@ -838,6 +866,13 @@ class Gen:
             if self.coin(0.3):
                 return Cho([Seq(pre + [e] + post), Seq([Clo(Cho([Seq([self.rng()])]), True)])])
             return Cho([Seq(pre + [e] + post)])
+        if self.coin(self.p.get("p_numberlike_string", 0.15)):
+            # Number = {'0'..'9'}+ ['.' {'0'..'9'}+]     Word = {'a'..'z'}+ {'-' {'a'..'z'}+}   : the tail can start and fail
+            rg = self.rng()
+            sep = self.r.choice([".", "-", "_", "::"])
+            head = Clo(Cho([Seq([rg])]), True)
+            tail_body = Cho([Seq([Lit(sep), Clo(Cho([Seq([Rng(rg.a, rg.b)])]), True)])])
+            return Cho([Seq([head, Opt(tail_body) if self.coin(0.5) else Clo(tail_body)])])
         if self.coin(self.p.get("p_single_lit_string", 0.12)):
             # the whole rule is one literal (keyword rules): the value is still the consumed slice of the input -
             # the input's spelling of a case-insensitive literal, including what the rule skipped in front of it
